@@ -75,10 +75,11 @@ PROBES = ['cfg:faults', 'cfg:fault-free', 'kind:tcpserver', 'kind:unixserver', '
           'poller:Select', 'poller:Poll', 'poller:EPoll', 'partial-send-real', 'fault:short_write', 'fault:transient_send_error',
           'fault:fatal_send_error', 'close-deferred', 'close-immediate', 'close-performed', 'write-after-close-request', 'write-after-closed',
           'payload-empty', 'payload-large', 'fatal-signalled', 'post-payload-written', 'flushed-in-full', 'repeated-close',
-          'repeated-close-while-deferred', 'close-all-while-deferred', 'eof-while-close-deferred', 'eof-before-close']
+          'repeated-close-while-deferred', 'close-all-while-deferred', 'eof-while-close-deferred', 'eof-before-close', 'cfg:greedy-big',
+          'payload-over-1MiB', 'payload-over-1MiB-accepted-in-one-send']
 TIERS = {
-    'quick': dict(runs=50000, wall=26, chunk=25, cfg=dict(max_ops=16, large=(60_000, 300_000), max_total=450_000, large_w=1)),
-    'thorough': dict(runs=200000, wall=600, chunk=40, cfg=dict(max_ops=40, large=(300_000, 2_500_000), max_total=6_000_000, large_w=2)),
+    'quick': dict(runs=50000, wall=26, chunk=25, cfg=dict(max_ops=16, large=(60_000, 300_000), max_total=450_000, large_w=1, big_den=40)),
+    'thorough': dict(runs=200000, wall=600, chunk=40, cfg=dict(max_ops=40, large=(300_000, 2_500_000), max_total=6_000_000, large_w=2, big_den=10)),
 }
 
 K_CLIENT = 'C11/client/transient-errno/payload-lost'
@@ -89,6 +90,7 @@ POLLERS = [('Select', Select), ('Poll', Poll), ('EPoll', EPoll)]
 TRANSIENT = [('EAGAIN', errno.EAGAIN), ('EWOULDBLOCK', errno.EWOULDBLOCK), ('EINTR', errno.EINTR), ('ENOBUFS', errno.ENOBUFS)]
 FATAL = [('EPIPE', errno.EPIPE), ('ECONNRESET', errno.ECONNRESET)]
 F_SETPIPE_SZ = 1031
+MIB = 1 << 20
 
 # ---- seam for File: circuits.io.file calls the module-level name `fd_write` (= os.write); rebind it once per process
 if not hasattr(FMOD, 'fd_write'):
@@ -211,13 +213,22 @@ def _run(ctx):
     ctx.stat('poller:' + pname)
     ctx.log('cfg', kind, pname, sndbuf or 0, bufsize, ','.join(k for k, _ in kinds), rate)
     ctx.trace('endpoint=%s poller=%s sndbuf=%s bufsize=%d faults=%s rate=1/%d' % (kind, pname, sndbuf, bufsize, [k for k, _ in kinds] or 'none', rate))
-    PAT = pattern(cfg['max_total'] + 4096)
+    # rare configuration "an OS with a very large send buffer": one send()/write() call may accept an arbitrarily large payload in full
+    # (NET.greedy for sockets, the same loop in the fd_write wrapper for File), and ONE payload of 1 MiB + k bytes is written among small ones
+    big = ch.chance(1, cfg['big_den'], 'greedy-big')
+    st_big = dict(at=ch.randint(0, 3, 'big-at'), size=MIB + ch.choice([1, 4096, 300_000], 'big-k'), done=False) if big else None
+    if big:
+        ctx.stat('cfg:greedy-big')
+        ctx.log('greedy-big', st_big['at'], st_big['size'])
+        ctx.trace('greedy OS: one send()/write() may accept a whole payload (the remote end drains meanwhile); write number %d is %d bytes' % (
+            st_big['at'] + 1, st_big['size']))
+    PAT = pattern(cfg['max_total'] + 4096 + (MIB + 300_000 if big else 0))
     T0 = W.now
 
     pays = []            # (offset in PAT, size, 'pre'|'post') in write order
     st = dict(total=0, pre_total=0, close_req=False, post=[], states={(-1, 0)}, acc=0, call=None, last='none', ncalls=0,
               partials=0, refusals=0, fatal=None, signalled=False, closed_at=None, after_close=0, viol=False, dead=False,
-              sock=None, connected=False, deferred=False, faults_seen=0, late=0, close_dem=False, ncloses=0, eof=False, disp=0, call_disp=-1)
+              sock=None, connected=False, deferred=False, faults_seen=0, late=0, close_dem=False, ncloses=0, eof=False, disp=0, call_disp=-1, big=st_big, nwrites=0)
 
     def fail(key, detail):
         if not st['viol']:
@@ -367,6 +378,10 @@ def _run(ctx):
                 ctx.stat('partial-send-real')
         else:
             outcome, how = 'full-send', ''
+        if len(g) == n and n > MIB:
+            ctx.stat('payload-over-1MiB-accepted-in-one-send')
+        if len(g) >= MIB:
+            ctx.stat('accepted-1MiB-or-more-in-one-send')
         prev = st['last']
         if g:                       # an accepted empty send says nothing about what happened to earlier data
             st['last'] = outcome
@@ -439,6 +454,9 @@ def _run(ctx):
         def _c11_dispatch(self, event, *a, **k):     # counts event dispatches (only used to word the finding key, see missing())
             st['disp'] += 1
 
+    hold = {}
+    if big:
+        NET.greedy = lambda sock: hold['peer'].recv() if 'peer' in hold else None    # the remote end drains whenever the kernel buffer is full
     m = make_running(Manager())
     pcls().register(m)
     Exc().register(m)
@@ -470,6 +488,7 @@ def _run(ctx):
         if peer.connect(addr) != 0:
             raise HarnessLimit('C11: simulated peer could not connect')
         settle([m])
+        hold['peer'] = peer
         chan = 'server'
         fire_write = lambda data: m.fire(NE.write(st['sock'], data), chan)
         fire_close = lambda whole=False: m.fire(NE.close() if whole else NE.close(st['sock']), chan)
@@ -510,7 +529,7 @@ def _run(ctx):
         settle([m], each=acc)
         if not got or not st['connected']:
             raise HarnessLimit('C11: client did not connect')
-        peer = got[0]
+        peer = hold['peer'] = got[0]
         fire_write = lambda data: m.fire(NE.write(data), chan)
         fire_close = lambda whole=False: m.fire(NE.close(), chan)
         half_close = peer.shutdown_wr
@@ -555,6 +574,18 @@ def _run(ctx):
             except OSError as e:
                 finish_real_error(errno.errorcode.get(e.errno, '?'))
                 raise
+            if big and n < len(data):       # same model as NET.greedy: the call keeps accepting while the reader drains the pipe
+                view, stalls = memoryview(bytes(data)), 0
+                while n < len(view) and stalls < 4:
+                    try:
+                        k = _real_fd_write(fd, view[n:])
+                    except BlockingIOError:
+                        k = 0
+                    if k:
+                        n, stalls = n + k, 0
+                    else:
+                        stalls += 1
+                        peer_read(1 << 40)
             on_accept(bytes(data[:n]))
             return n
         _FILE['hook'] = file_write
@@ -609,8 +640,15 @@ def _drive(ctx, st, pays, PAT, m, kind, grp, fire_write, fire_close, half_close,
                 return do_step()
             st['late'] += 1
             ctx.stat('write-after-closed')
-        c = ch.weighted([4, 2, 1, 2, 2, 2, cfg['large_w']], 'size-class')
-        if c == 0:
+        bigp = st['big']
+        st['nwrites'] += 1
+        c = ch.weighted([4, 2, 1, 2, 2, 0 if bigp else 2, 0 if bigp else cfg['large_w']], 'size-class')
+        if bigp and not bigp['done'] and st['nwrites'] > bigp['at'] and not gone():
+            bigp['done'] = True
+            c = -1
+            size = bigp['size']
+            ctx.stat('payload-over-1MiB')
+        elif c == 0:
             size = ch.randint(2, 64, 'size')
         elif c == 1:
             size = 1
@@ -624,7 +662,7 @@ def _drive(ctx, st, pays, PAT, m, kind, grp, fire_write, fire_close, half_close,
             size = ch.randint(10_000, 40_000, 'size')
         else:
             size = ch.randint(cfg['large'][0], cfg['large'][1], 'size')
-        if st['total'] + size > cfg['max_total']:
+        if c >= 0 and st['total'] + size > cfg['max_total']:
             size = min(size, 7)
         off = st['total']
         phase = 'post' if st['close_req'] else 'pre'
